@@ -176,7 +176,7 @@ class StateGraphMonitor(Monitor):
         from vsim.gen import effective_options
         run = self.run
         if state == 'SHUTTING_DOWN' and effective_options(run.scenario['options'])['failure'] == 'SHUTDOWN' \
-                and not any(d['kind_eff'] == 'user_shutdown' for d in run.disturbances):
+                and not any('shutdown' in d['kind_eff'] for d in run.disturbances):
             return '/failure-strategy-SHUTDOWN'
         return ''
 
@@ -235,8 +235,44 @@ class MasterMonitor(Monitor):
             if len(comp) > 1:
                 nontrivial = True
             self.check_kept_and_rule(run, comp, mnick)
+        self.scan_kept_master(run)
         self.nontrivial = nontrivial and bool(run.disturbances)
         return self.violations
+
+    def scan_kept_master(self, run):
+        """ Kept-Master clause over the whole history of per-tick samples: when a group converged on M is later
+        converged on M' != M although M stayed alive (same incarnation) in the group, with no link cut in between,
+        M' must have been a Master already recognised by some live instance when the group was on M. """
+        w = run.world
+        records = {}   # master nick -> record of the last sample where a group was converged on it
+        for sample in run.samples:
+            vws, incs = sample['views'], sample['incs']
+            for rec in records.values():
+                m = rec['master']
+                if sample['cut'] or sample['cut_count'] != rec['cut_count'] or incs.get(m) != rec['inc'] or \
+                        (m in vws and vws[m]['state'] in ('RESTARTING', 'SHUTTING_DOWN', 'FINAL', 'OFF')):
+                    rec['valid'] = False
+            recognised = {w.by_identifier.get(v['master_declared']) for v in vws.values() if v['master_declared']}
+            for comp, clique in zip(sample['groups'], sample['cliques']):
+                if not clique:
+                    continue
+                ok, mnick, _ = master_agreement(w, comp, vws)
+                if not ok:
+                    continue
+                for old, rec in list(records.items()):
+                    if old == mnick or old not in comp:
+                        continue
+                    if rec['valid'] and not (set(rec['group']) - {old}).isdisjoint(comp):
+                        self.count('kept_master_scans')
+                        if mnick not in rec['recognised']:
+                            self.violate('C01/master-not-kept', f'group {rec["group"]} was converged on Master {old} '
+                                         f'at vt={rec["vt"]}; {old} stayed alive in the group, no link was cut, and '
+                                         f'{mnick} was recognised as Master by nobody at that time, yet the group '
+                                         f'{comp} is converged on {mnick} at vt={sample["vt"]}', case=run.describe())
+                    del records[old]
+                records[mnick] = {'master': mnick, 'vt': sample['vt'], 'group': comp, 'inc': incs.get(mnick),
+                                  'valid': not sample['cut'], 'recognised': recognised,
+                                  'cut_count': sample['cut_count']}
 
     def check_kept_and_rule(self, run, comp, mnick):
         """ Evaluated only in single-disturbance windows (see DESIGN.md 8/C01). """
